@@ -31,7 +31,7 @@ DEFAULT_PROFILE = {
     "p_http": 0.9, "p_signature": 0.7, "p_routing": 0.25, "p_keyword_rpc": 0.08,
     "p_service_config": 0.8, "p_yaml": 0.3, "p_reserved_field": 0.08, "p_two_services": 0.25,
     "p_foreign_request": 0.1, "p_shuffle_numbers": 0.2, "p_additional_binding": 0.25,
-    "p_auto_populate": 0.0, "p_google_api_ns": 0.0, "sig_variants": False, "p_multi_var_path": 0.0, "mixin_variants": False, "p_add_iam_methods": 0.0, "common_file_names": ["resources"],
+    "p_auto_populate": 0.0, "p_google_api_ns": 0.0, "sig_variants": False, "p_multi_var_path": 0.0, "mixin_variants": False, "p_add_iam_methods": 0.0, "p_equal_sort_keys": 0.0, "common_file_names": ["resources"],
     "transports": ["grpc", "grpc+rest", "grpc+rest", "rest"],
     "p_numeric_enums": 0.3,
     "paged_variants": False,
@@ -190,6 +190,15 @@ def gen_api(rng, prof=None):
         resources[noun] = {"pattern": pattern, "parent_pattern": parent_pat, "coll": coll, "msg": m,
                            "nested_parent": nested_parent}
 
+    if cx.chance("p_equal_sort_keys"):
+        # two resources whose types share the part after '/', both reachable from one service
+        noun = nouns[0]
+        legacy = {"name": "Legacy" + noun, "fields": [{"name": "name", "number": 1, "type": "string"},
+                                                       {"name": "note", "number": 2, "type": "string"}],
+                  "resource": {"type": f"legacy.{host}/{noun}", "patterns": [f"legacy{PLURAL[noun].capitalize()}/{{legacy_{noun.lower()}}}"]}}
+        common["messages"].append(legacy)
+        resources[noun]["msg"]["fields"].append({"name": "legacy_form", "number": 40, "type": "message",
+                                                 "type_name": P + ".Legacy" + noun})
     for noun in nouns:
         svc = rng.choice(services)
         _gen_methods(cx, pkg, main, svc, noun, resources[noun], enums, msgs)
